@@ -40,7 +40,13 @@ def world():
     with warnings.catch_warnings():
         warnings.simplefilter('ignore')
         fneg = FlowCal.io.FCSData(fpath)
-    return {'raw': raw, 'rfi': rfi, 'mef': mef, 'float-neg': fneg}
+    p18 = os.path.join(d, 'r18.fcs')
+    fcsgen.write_sample(p18, [[0, 0, 0], [262143, 255, 999], [1000, 100, 500]], ['c1', 'c2', 'c3'], [262144, 256, 1000], bits=32,
+                        pne=['1,1', '4,1', '2,0.5'])
+    with warnings.catch_warnings():
+        warnings.simplefilter('ignore')
+        raw18 = FlowCal.io.FCSData(p18)
+    return {'raw': raw, 'rfi': rfi, 'mef': mef, 'float-neg': fneg, 'raw18': raw18}
 
 
 def expected_params(x, col, src, ovr):
